@@ -137,8 +137,11 @@ Proof.
     destruct (mem_node (node_of i) (s_nodes st2)); simpl; eexists; reflexivity. }
   destruct rb as [v|kb|]; [|inversion Ef; subst; destruct (Hroll ln) as (rest & E);
                              exists ln, rest; simpl; rewrite E; auto|congruence].
-  destruct (cl_cached cl); [|inversion Ef].
-  unfold store_value in Ef.
-  destruct v as [z|]; [inversion Ef|]. destruct (cl_allow_none cl); [inversion Ef|].
-  inversion Ef; subst. destruct (Hroll 0) as (rest & E). exists 0, rest. simpl. rewrite E. auto.
+  assert (Ef' : (@Err val KNone, rollback_frame st2 0) = (@Err val k, st1) /\ v = VNone).
+  { destruct (cl_cached cl).
+    - unfold store_value in Ef.
+      destruct v as [z|]; [inversion Ef|]. destruct (cl_allow_none cl); [inversion Ef|]. auto.
+    - destruct v as [z|]; [inversion Ef|]. destruct (cl_allow_none cl); [inversion Ef|]. auto. }
+  destruct Ef' as (Ef' & _).
+  inversion Ef'; subst. destruct (Hroll 0) as (rest & E). exists 0, rest. simpl. rewrite E. auto.
 Qed.
